@@ -8,6 +8,7 @@ import (
 	appchainMgr "github.com/meshplus/bitxhub-core/appchain-mgr"
 	"github.com/meshplus/bitxhub-core/governance"
 	nodemgr "github.com/meshplus/bitxhub-core/node-mgr"
+	ruleMgr "github.com/meshplus/bitxhub-core/rule-mgr"
 	service_mgr "github.com/meshplus/bitxhub-core/service-mgr"
 	"github.com/meshplus/bitxhub-model/pb"
 	zz "github.com/meshplus/bitxhub/internal/zzverif"
@@ -175,6 +176,68 @@ func ZZH_C16_service_manage() {
 			if json.Unmarshal(e.data, s) == nil && s.ChainID == "chA" && s.ServiceID == "late" {
 				zz.Assert("C16.manage.announced-equals-stored", s.Status == post.Status)
 			}
+		}
+	}
+}
+
+// ZZH_C03_rule_update: the governance contract concludes an "update master rule" proposal through
+// the real RuleManager.Manage. Pre-state as the real UpdateMasterRule leaves it: old master M
+// unbinding, new rule N binding (either list order; optionally a third, bindable rule). Whatever
+// the verdict, afterwards exactly one rule of the chain is available, it carries the master flag,
+// it is N after an approval and still M after a rejection, and the other returns to bindable -
+// so the proof pool (first available rule of the chain's list) validates with the bound master.
+// zz:also C16
+func ZZH_C03_rule_update() {
+	w, cs := zzFullWorld()
+	w.audit = zz.Choice("audit", 2) == 1
+	M := &ruleMgr.Rule{Address: "0xM000000000000000000000000000000000000001", ChainID: "chA", Master: true, Status: governance.GovernanceUnbinding}
+	N := &ruleMgr.Rule{Address: "0xN000000000000000000000000000000000000002", ChainID: "chA", Master: false, Status: governance.GovernanceBinding, Default: zz.Choice("newIsBuiltin", 2) == 1}
+	X := &ruleMgr.Rule{Address: "0xX000000000000000000000000000000000000003", ChainID: "chA", Status: governance.GovernanceBindable}
+	var rules []*ruleMgr.Rule
+	switch zz.Choice("listOrder", 3) {
+	case 0:
+		rules = []*ruleMgr.Rule{M, N}
+	case 1:
+		rules = []*ruleMgr.Rule{N, M}
+	default:
+		rules = []*ruleMgr.Rule{N, X, M}
+	}
+	w.putObj(zzRuleAddr, ruleMgr.RuleKey("chA"), rules)
+	w.putObj(zzAppchainAddr, appchainMgr.AppchainKey("chA"), appchainMgr.Appchain{ID: "chA", ChainName: "chA", ChainType: "fabric", Status: governance.GovernanceFrozen})
+	oldInfo := *M
+	oldInfo.Status = governance.GovernanceAvailable // the status recorded when the proposal was submitted
+	newInfo := *N
+	newInfo.Status = governance.GovernanceBindable
+	extra, _ := json.Marshal(&UpdateMasterRuleInfo{OldRule: &oldInfo, NewRule: &newInfo,
+		AppchainInfo: &appchainMgr.Appchain{ID: "chA", Status: governance.GovernanceAvailable}})
+	result := []string{string(APPROVED), string(REJECTED)}[zz.Choice("result", 2)]
+	_, err := zzInvoke(w, cs[zzRuleAddr], zzRuleAddr, zzGovAddr, "Manage",
+		[]*pb.Arg{pb.String(string(governance.EventUpdate)), pb.String(result), pb.String(string(governance.GovernanceBindable)), pb.String("chA:" + N.Address), pb.Bytes(extra)})
+	zz.Assert("C03.rule-update.concludes", err == nil)
+	var post []*ruleMgr.Rule
+	zz.Assert("C03.rule-update.rules-kept", w.getObj(zzRuleAddr, ruleMgr.RuleKey("chA"), &post) && len(post) == len(rules))
+	usable, master := "", ""
+	nUsable := 0
+	for _, r := range post {
+		if r.Status == governance.GovernanceAvailable {
+			nUsable++
+			if usable == "" {
+				usable = r.Address // what VerifyPool.getValidateAddress picks
+			}
+		}
+		if r.Master {
+			master = r.Address
+		}
+	}
+	want := M.Address
+	if result == string(APPROVED) {
+		want = N.Address
+	}
+	zz.Assert("C03.rule-update.one-usable-rule", nUsable == 1)
+	zz.Assert("C03.rule-update.pool-validates-with-bound-master", usable == want && master == want)
+	for _, r := range post {
+		if r.Address != want {
+			zz.Assert("C03.rule-update.other-rule-bindable", r.Status == governance.GovernanceBindable && !r.Master)
 		}
 	}
 }
